@@ -19,7 +19,7 @@ from typing import Any
 from ..loader import AnalysisError, EnumMember, Repo
 from ..report import Check
 from ..sereval import BV, INF, TOP, AbstractRaise, Blob, Bytes, EnumV, Lin, ListV, Obj, Run, SerEval, Src, Unsupported, _FieldRef
-from .apci_common import M, class_fields, field_variants, is_stub, service_classes, symbolic_object
+from .apci_common import M, class_fields, field_variants, is_stub, service_classes, symbolic_object, encoders_return_fresh_buffers
 
 
 def compare_field(ev: SerEval, run: Run, fq: str, orig: Any, got: Any, problems: list[str]) -> None:
@@ -74,9 +74,12 @@ def compare_field(ev: SerEval, run: Run, fq: str, orig: Any, got: Any, problems:
 def run(chk: Check, repo: Repo) -> None:
     ev = SerEval(repo)
     classes = service_classes(repo)
+    stale = encoders_return_fresh_buffers(chk, repo, classes)
     chk.floor("APCI service classes", len(classes), 80)
     n_paths = n_cls = n_refuse = 0
     for c in classes:
+        if c.name in stale:
+            continue  # reported by encoder-returns-a-buffer-of-its-own
         if is_stub(repo, c):
             continue
         fk, tk = c.methods["from_knx"], c.methods["to_knx"]
